@@ -122,6 +122,7 @@ type tr struct {
 	fd         *ast.FuncDecl           // the function being translated (set by prepare)
 	closures   map[string]*ast.FuncLit // local `name := func(…) {…}` definitions seen so far
 	depth      int                 // inlining depth
+	flags      map[string]string   // locals initialised to a "not found" literal (`-1`, `false`): candidates for a search loop's flag
 	errKnown   int                 // what is known about `err` on this path: 0 nothing, 1 non-nil, 2 nil (set by the branches of `if err != nil`)
 	retCont    func(t *tr, r *ast.ReturnStmt) string // set while a multi-result helper is inlined: what a `return` of it continues with
 }
@@ -711,6 +712,52 @@ func (t *tr) lvalue(e ast.Expr) string {
 	}
 	failf(e, "unsupported assignment target %s", s)
 	return ""
+}
+
+// flagLoopAsReturnLoop recognises
+//	flag := -1 (or false) … for i, e := range X { if cond { flag = i (or true); break } } ; if flag >= 0 (or flag) { return R }
+// and hands back `for i, e := range X { if cond { return R } }` with the statements after the flag test.
+func (t *tr) flagLoopAsReturnLoop(x *ast.RangeStmt, rest []ast.Stmt) (ast.Stmt, []ast.Stmt, bool) {
+	if len(x.Body.List) != 1 || len(rest) == 0 {
+		return nil, nil, false
+	}
+	is, ok := x.Body.List[0].(*ast.IfStmt)
+	if !ok || is.Else != nil || len(is.Body.List) != 2 {
+		return nil, nil, false
+	}
+	as, ok1 := is.Body.List[0].(*ast.AssignStmt)
+	br, ok2 := is.Body.List[1].(*ast.BranchStmt)
+	if !ok1 || !ok2 || br.Tok != token.BREAK || br.Label != nil || as.Tok != token.ASSIGN || len(as.Lhs) != 1 || len(as.Rhs) != 1 {
+		return nil, nil, false
+	}
+	flag, ok := as.Lhs[0].(*ast.Ident)
+	if !ok {
+		return nil, nil, false
+	}
+	after, ok := rest[0].(*ast.IfStmt)
+	if !ok || after.Init != nil || after.Else != nil || !hasReturn(after.Body.List) {
+		return nil, nil, false
+	}
+	test := norm(src(after.Cond))
+	switch t.flags[flag.Name] {
+	case "-1":
+		key, isKey := x.Key.(*ast.Ident)
+		if !isKey || norm(src(as.Rhs[0])) != key.Name {
+			return nil, nil, false
+		}
+		if test != flag.Name+">=0" && test != flag.Name+"!=-1" && test != flag.Name+">-1" {
+			return nil, nil, false
+		}
+	case "false":
+		if norm(src(as.Rhs[0])) != "true" || test != flag.Name {
+			return nil, nil, false
+		}
+	default:
+		return nil, nil, false
+	}
+	y := *x
+	y.Body = &ast.BlockStmt{List: []ast.Stmt{&ast.IfStmt{Init: is.Init, Cond: is.Cond, Body: after.Body}}}
+	return &y, rest[1:], true
 }
 
 // mentions: does any of the statements refer to one of the names (as an identifier)?
@@ -1487,6 +1534,11 @@ func (t *tr) block(b []ast.Stmt, tail string, ind string) string {
 		}
 		failf(s, "unsupported statement %T: %s", s, src(s))
 	case *ast.RangeStmt:
+		// a search loop that records its hit in a flag, leaves with `break`, and is followed by `if <flag set> { return … }`
+		// is the loop `for … { if cond { return … } }`
+		if y, rest2, ok := t.flagLoopAsReturnLoop(x, rest); ok {
+			return t.block(append([]ast.Stmt{y}, rest2...), tail, ind)
+		}
 		if canon, ok := lookup(t.sp.RangeCond, "elem:"+src(t.subst(x.X))); ok {
 			if id, isId := x.Value.(*ast.Ident); isId && id.Name != canon && id.Name != "_" {
 				t.alias(id.Name, ast.NewIdent(canon))
@@ -1571,6 +1623,16 @@ func (t *tr) block(b []ast.Stmt, tail string, ind string) string {
 		}
 		return "let " + v + " := (" + t.ops() + op + t.expr(x.X) + " (1 : Int))\n" + ind + t.block(rest, tail, ind)
 	case *ast.AssignStmt:
+		if x.Tok == token.DEFINE && len(x.Lhs) == 1 && len(x.Rhs) == 1 {
+			if id, ok := x.Lhs[0].(*ast.Ident); ok {
+				if v := norm(src(x.Rhs[0])); v == "-1" || v == "false" {
+					if t.flags == nil {
+						t.flags = map[string]string{}
+					}
+					t.flags[id.Name] = v
+				}
+			}
+		}
 		if eff, ok := t.stmtEffect(x); ok {
 			return "let " + eff + "\n" + ind + t.block(rest, tail, ind)
 		}
